@@ -326,3 +326,27 @@ func (r *bytesReader) Read(p []byte) (int, error) {
 }
 
 var errEOF = io.EOF
+
+// limbNeighbours returns values that agree with m in some limbs and differ in others: m +- 2^(64i), m with limb i
+// replaced by a neighbouring limb of m, by 0, by all ones or by a random word (a comparison that mixes up limb indices
+// or drops a limb misclassifies exactly such values).
+func limbNeighbours(m *big.Int, rng *rand.Rand) []*big.Int {
+	var out []*big.Int
+	l := limbs(new(big.Int).Mod(m, two256))
+	for i := 0; i < 4; i++ {
+		sh := new(big.Int).Lsh(bigOne, uint(64*i))
+		out = append(out, new(big.Int).Add(m, sh), new(big.Int).Sub(m, sh), new(big.Int).Add(m, new(big.Int).Sub(sh, bigOne)))
+		for _, w := range []uint64{0, ^uint64(0), l[(i+1)%4], l[(i+3)%4], l[i] + 1, l[i] - 1, rng.Uint64()} {
+			c := l
+			c[i] = w
+			out = append(out, fromLimbs(c))
+		}
+	}
+	var res []*big.Int
+	for _, v := range out {
+		if v.Sign() >= 0 && v.BitLen() <= 256 {
+			res = append(res, v)
+		}
+	}
+	return res
+}
